@@ -378,6 +378,7 @@ package rlwe
 // pow(x, n) is x^n over the integers (ring/zz_contracts_verif.go, ModExp).
 //@ func Parameters.GaloisElement
 //@   property C11
+//@   assigns
 //@   let nr = p.ringQ.SubRings[0].NthRoot
 //@   requires 0 < len(p.ringQ.SubRings) && 5 < nr && nr < 1<<62
 //@   ensures result < nr && cong(result, pow(GaloisGen, (k % W) & (nr - 1)), nr)
@@ -390,10 +391,37 @@ package rlwe
 
 //@ func Parameters.GaloisElementOrderTwoOrthogonalSubgroup
 //@   property C11
+//@   assigns
 //@   let nr = p.ringQ.SubRings[0].NthRoot
 //@   requires 0 < len(p.ringQ.SubRings) && 1 < nr && p.ringType != ring.ConjugateInvariant
 //@   ensures result == nr - 1
 //@   ensures cong(result * result, 1, nr) by cong_intro((nr-1)*(nr-1), 1, nr - 2, nr)
+
+// The list of Galois elements advertised for Trace(ct, logN): exactly the elements Trace applies,
+// 5^(2^i) mod NthRoot for logN <= i < LogN-1, in that order, followed - for the full trace
+// (logN = 0) in the standard ring - by the order-two element NthRoot-1; in the conjugate-invariant
+// ring Trace skips that last step, so the list ends there (asking for it is not an error: finding F25).
+//@ func ParameterProvider.GetRLWEParameters
+//@   trusted accessor; ASSUMED invariant of a constructed parameter object: a ring with at least one modulus, 4 <= logN <= 20, root order in (5, 2^62), one of the two ring types
+//@   assigns
+//@   ensures 0 < len(result.ringQ.SubRings) && 5 < result.ringQ.SubRings[0].NthRoot && result.ringQ.SubRings[0].NthRoot < 1<<62
+//@   ensures 4 <= result.logN && result.logN <= 20 && (result.ringType == ring.Standard || result.ringType == ring.ConjugateInvariant)
+//@ func Parameters.LogN
+//@   assigns
+//@   ensures result == p.logN
+//@ func Parameters.RingType
+//@   assigns
+//@   ensures result == p.ringType
+//@ func GaloisElementsForTrace
+//@   property C11
+//@   let nr = p.ringQ.SubRings[0].NthRoot
+//@   let L = p.logN - 1 - logN
+//@   requires 0 <= logN
+//@   ensures forall(k, 0, L, galEls[k] < nr && cong(galEls[k], pow(GaloisGen, ((1 << (logN + k)) % W) & (nr - 1)), nr))
+//@   ensures implies(logN == 0 && p.ringType == ring.Standard, len(galEls) == L + 1 && galEls[L] == nr - 1)
+//@   ensures implies(!(logN == 0 && p.ringType == ring.Standard), len(galEls) == max(L, 0))
+//@   loop 0 invariant logN <= i && j == i - logN && len(galEls) == j && fresh(galEls) && (i <= p.logN - 1 || j == 0)
+//@   loop 0 invariant forall(k, 0, j, galEls[k] < nr && cong(galEls[k], pow(GaloisGen, ((1 << (logN + k)) % W) & (nr - 1)), nr))
 
 // The discrete logarithm: for every Galois element g = 5^kk (mod NthRoot) with kk in
 // [0, NthRoot/4) the function returns kk (dlog and lg2 are uninterpreted: the contract holds for
